@@ -143,7 +143,8 @@ class Owner:
         # nothing around the driver call (e.g. a Drop impl of the transient backend) touches it
         self.state_after = paths[0]["cells"].get("self")
         fmap = {}
-        for fname, v in bev[2].items():
+
+        def classify(fname, v):
             if v[0] == "ref":
                 tg = v[1]
                 if tg.cell == ("A", "self"):
@@ -152,8 +153,16 @@ class Owner:
                     fmap[fname] = "<cipher>"
                 else:
                     fmap[fname] = "<other:%r>" % (tg,)
+            elif v[0] in ("zst", "unit") or (v[0] == "struct" and not v[2]):
+                fmap[fname] = "<zst>"          # direction markers, PhantomData
+            elif v[0] == "struct":
+                # a by-value wrapper (newtype around the borrowed state): its fields decide
+                for k, x in v[2].items():
+                    classify("%s.%s" % (fname, k), x)
             else:
                 fmap[fname] = "<value>"
+        for fname, v in bev[2].items():
+            classify(str(fname), v)
         return bev[1], fmap
 
     def init_fields(self, fb, ctx=None, F=None):
